@@ -265,6 +265,51 @@ func runC05(r *Run) {
 		}
 	})
 
+	r.rule("R8", "a matching catch-all route overwrites its value slot: in Route.match no `return true` is reachable for a star route (a route is never root and star at once) without a store into the value array — the slots are not cleared between requests, a match that leaves one alone hands the handler the previous request's value (E1)", func() {
+		f := r.Fn("", "(*Route).match")
+		cut := map[edge]bool{}
+		nstar := 0
+		for _, br := range branchesInOne(f) {
+			switch {
+			case loadOfField(br.Info.Root, "Route.star"):
+				if s, ok := br.truthSlot(false); ok {
+					cut[edge{br.If.Block(), s}] = true
+					nstar++
+				}
+			case loadOfField(br.Info.Root, "Route.root"):
+				if s, ok := br.truthSlot(true); ok {
+					cut[edge{br.If.Block(), s}] = true
+				}
+			}
+		}
+		r.need(nstar >= 1, "Route.match branches on Route.star")
+		isSlotStore := func(in ssa.Instruction) bool {
+			st, ok := in.(*ssa.Store)
+			if !ok {
+				return false
+			}
+			ia, ok := st.Addr.(*ssa.IndexAddr)
+			if !ok {
+				return false
+			}
+			p, ok := stripValue(ia.X).(*ssa.Parameter)
+			return ok && p.Name() == "params"
+		}
+		retTrue := func(in ssa.Instruction) bool {
+			ret, ok := in.(*ssa.Return)
+			if !ok || ret.Parent() != f || len(ret.Results) != 1 {
+				return false
+			}
+			b, isC := constBool(asConst(stripValue(ret.Results[0])))
+			return !(isC && !b)
+		}
+		path, hit := reach(entryOf(f), retTrue, cut, func(in ssa.Instruction) bool {
+			return isSlotStore(in) || isCallTo(in, nameHasSuffix("routeParser).getMatch"))
+		})
+		r.check(hit == nil, "match:star-route-writes-its-slot", r.fpos(f), "with the `not star` and `root` edges removed every accepting return is preceded by a store into the value array",
+			"Route.match can accept a request for a catch-all route without writing the wildcard's value: GET / on \"/*\" leaves params[0] as the previous request on that pooled context set it — Params(\"*\") answers secret/report.pdf: "+pathString(r.P, path))
+	})
+
 	r.rule("R7", "a fasthttp.RequestCtx taken from a pool is wiped before request code sees it: on every path from the pool's Get to the first hand-over (AcquireCtx, a handler call) the request, the response and the user values (c.Locals) are reset (E1, every function of the module)", func() {
 		n := 0
 		r.P.AllFuncs("*", func(f *ssa.Function) {
